@@ -390,6 +390,26 @@ class C02(Property):
             ops += [["allow", t3 + 1, 0, 0] for _ in range(20)] + [["fail", j + k] for k in range(10)]
             ops += [["allow", t3 + COOL // 2, 0, 0], ["allow", t3 + COOL - 1, 0, 0]]   # cool CPU, saturated, < 1 s after the spike
             cs.append(self._case(5 * SEC, 50, 900, B, ops))
+        # requests shed DURING the cool-off do not extend it (seeded C02-1: overloadTime stamped by every shed): 25 in
+        # flight, average ~ 24, capacity 10; shed under an overloaded CPU at B+1, shed again 0.6 s later under a cool CPU
+        # (still hot), let in one second after the overloaded Allow - 0.4 s after the last shed
+        for d in (COOL - 1, COOL, COOL + 400 * MS):
+            ops = [["allow", B, 0, 0] for _ in range(40)] + [["fail", i] for i in range(15)]
+            ops += [["allow", B + 1, 1000, 1000], ["allow", B + 1 + 600 * MS, 0, 0], ["allow", B + 1 + 900 * MS, 0, 0],
+                    ["allow", B + 1 + d, 0, 0], ["allow", B + 1 + d + 1, 0, 0]]
+            cs.append(self._case(5 * SEC, 50, 900, B, ops))
+        # a shedder built at an instant that is NOT a multiple of its bucket duration (seeded C02-5: maxFlight() memoised
+        # per timex.Now() / bucketDuration while the windows' buckets are aligned with the construction time): 10 passes
+        # of 50 ms complete in bucket 0 = [t0, t0 + 100 ms); an overloaded Allow at t0 + 80 ms (capacity 10: that bucket is
+        # the current one) and one at t0 + 110 ms (capacity 5 = 10 x 50 / 100; 9 in flight, average ~ 9: shed) lie in
+        # the same 100 ms period of the process clock
+        for ph in (30 * MS, 70 * MS):
+            t0 = B + ph
+            ops = [["allow", t0, 0, 0] for _ in range(20)] + [["pass", i, t0 + 50 * MS] for i in range(10)]
+            ops += [["fail", 10], ["fail", 11]]
+            near = t0 + 80 * MS if ph == 30 * MS else t0 + 40 * MS       # same process-clock period as t0 + 110 ms? (ph = 70: no)
+            ops += [["allow", near, 900, 900], ["allow", t0 + 110 * MS, 900, 900], ["allow", t0 + 125 * MS, 900, 900]]
+            cs.append(self._case(5 * SEC, 50, 900, t0, ops))
         return cs
 
     # ---- every constant of adaptiveshedder.go decides something in a fixed history (tools/c02consts.py falls back on
@@ -1425,6 +1445,8 @@ class C02(Property):
     def shrink_candidates(self, case):
         """at most ~8000 operations per round (a 250-operation history has 240 candidates: minutes on a loaded machine)"""
         res, total = [], 0
+        if os.environ.get("VERIF_C02_NOSHRINK"):      # development aid: report the failing case as it is
+            return []
         for c in self._shrink_candidates(case):
             total += len(c.get("ops") or c.get("reqs") or c.get("keys") or [])
             if res and total > 8000 and len(res) >= 16:
